@@ -127,11 +127,11 @@ def replay_pass(strat, b0, b1, b2, b3, pv, ea, eb, faults, cb_mode, cb_peek, cb_
   return _pass(K.real_cache, strat, b0, b1, b2, b3, pv, ea, eb, faults, cb_mode, cb_peek, cb_drain, ub)
 
 
-def _forever_fault(cmod, strat, which):
-  """writeForever: whatever escapes one pass is logged, the loop backs off and goes on; every metric is
-  written, or its failed write is counted, or the exception that interrupted its batch is logged."""
+def _forever_fault(cmod, strat, which, which2):
+  """writeForever: whatever escapes a pass is logged (every time), the loop backs off and goes on; every
+  metric is written, or its failed write is counted, or the exception that interrupted its batch is logged."""
   cache = K.build(cmod, strat, [True, False, True, False], [1, 2, 3, 4], 0)
-  db = W.RecordingDB(preexisting=['a', 'b'], faults=1 << which, nfault_bits=6)
+  db = W.RecordingDB(preexisting=['a', 'b'], faults=(1 << which) | (1 << which2), nfault_bits=6)
   real_drain = cache.drain_metric
 
   def drain():
@@ -140,7 +140,7 @@ def _forever_fault(cmod, strat, which):
     return m, d
   cache.drain_metric = drain
   reactor = W.StopReactor()
-  tm = W.FakeTimeModule(on_sleep=lambda d: reactor.stop() if len(tm.sleeps) >= 2 else None)
+  tm = W.FakeTimeModule(on_sleep=lambda d: reactor.stop() if len(tm.sleeps) >= 3 else None)
   log = W.install(cache, db, None, None, reactor=reactor, time_mod=tm)
   try:
     W.writer.writeForever()
@@ -149,14 +149,17 @@ def _forever_fault(cmod, strat, which):
   cover('looped')
   calls = db.calls
   failed = [c for c in calls if c[0] != 'drain' and not c[3]]
-  if len(failed) != 1:
-    return True                      # the fault bit fell beyond the calls this workload makes
-  kind = failed[0][0]
-  escaped = kind == 'exists'        # create/write faults are caught inside the pass and counted
-  if escaped and (log.errs != 1 or tm.sleeps[0] != 0.1):
-    raise AssertionError('escaping exception not logged, or no back-off')
-  if (not escaped) and W.stats('errors') != 1:
-    raise AssertionError('failed %s() not counted as an error' % kind)
+  if len(failed) == 0:
+    return True                      # the fault bits fell beyond the calls this workload makes
+  if len(failed) == 2:
+    cover('two_faults')
+  escaped = [c for c in failed if c[0] == 'exists']     # create/write faults are caught inside the pass and counted
+  if log.errs != len(failed):
+    raise AssertionError('%d backend failures, %d reported' % (len(failed), log.errs))
+  if failed[0][0] == 'exists' and tm.sleeps[0] != 0.1:
+    raise AssertionError('no back-off after an escaping exception')
+  if W.stats('errors') != len(failed) - len(escaped):
+    raise AssertionError('failed create()/write() not counted as an error')
   for m in ('a', 'b'):
     ok_writes = len([c for c in calls if c[0] == 'write' and c[1] == m and c[3]])
     bad_writes = len([c for c in calls if c[0] == 'write' and c[1] == m and not c[3]])
@@ -171,17 +174,17 @@ def _forever_fault(cmod, strat, which):
   return True
 
 
-def C03_forever_fault(strat: int, which: int) -> bool:
+def C03_forever_fault(strat: int, which: int, which2: int) -> bool:
   """
   pre: 0 <= strat <= 6
-  pre: 0 <= which <= 3
+  pre: 0 <= which <= which2 <= 4
   post: __return__
   """
-  return _forever_fault(K.SHADOW, strat, which)
+  return _forever_fault(K.SHADOW, strat, which, which2)
 
 
-def replay_forever_fault(strat, which):
-  return _forever_fault(K.real_cache, strat, which)
+def replay_forever_fault(strat, which, which2):
+  return _forever_fault(K.real_cache, strat, which, which2)
 
 
 _S = ([('s%d_%s_nocb' % (i, n or 'none'), 'strat == %d and not cb_mode' % i) for i, n in enumerate(K.STRATEGY_NAMES)] +
@@ -199,7 +202,7 @@ HARNESSES = [
     twin_pre=['strat == 3 and cb_mode'],
     encodes=['carbon.writer:writeCachedDataPoints', 'carbon.cache:_MetricCache.drain_metric', 'carbon.cache:_MetricCache.pop'],
     assumptions=_ASSUME),
-  H('C03_forever_fault', quick=dict(timeout=200), covers=['looped'], replay='replay_forever_fault',
+  H('C03_forever_fault', quick=dict(timeout=280, shards=[('w%d' % k, 'which == %d' % k) for k in range(5)]), covers=['looped', 'two_faults'], replay='replay_forever_fault',
     encodes=['carbon.writer:writeForever', 'carbon.writer:writeCachedDataPoints'], assumptions=_ASSUME),
 ]
 
